@@ -3,9 +3,9 @@ import json, os, random, shutil, subprocess, time, hashlib
 from .util import *
 from . import corpus, tlc
 
-def validate_history(name, path, timeout=3600):
-    """run TraceHistory on one ndjson file; returns (findings, tlc_states)"""
-    res = tlc.run_trace_shards(name, "TraceHistory.tla", "TraceHistory.cfg", [path], timeout=timeout, xmx="4g")
+def validate_history(name, path, timeout=3600, module="TraceHistory"):
+    """run TraceHistory (or another history trace spec) on one ndjson file; returns (findings, tlc_states)"""
+    res = tlc.run_trace_shards(name, module + ".tla", module + ".cfg", [path], timeout=timeout, xmx="4g")
     n = sum(1 for l in open(path) if l.strip())
     findings, done, states = [], 0, 0
     for vals, st, wall in res:
@@ -297,6 +297,72 @@ def leak_stage(tier_, key):
                 "with_reference_cycle": sum(1 for r in recs if r["cycle"]), "leaking": sum(1 for r in recs if r["leaked"] != 0),
                 "longest_reuse": max(r["calls"] for r in recs), "tlc_states": states}, "samples": recs[:2]}
     return cached(key, "leak_%s_%d" % (tier_, seed()), compute)
+
+# ---------------------------------------------------------------- C14: object graph (Heap.tla / TraceHeap.tla)
+# aliasing-relevant opcodes: markers, one scalar, callables, every container constructor and
+# mutator, every object constructor, DUP / POP / POP_MARK, every memo write and read
+HEAP_OPS = [0x28, 0x4e, 0x63, 0x5d, 0x6c, 0x7d, 0x64, 0x29, 0x74, 0x85, 0x86, 0x87, 0x8f, 0x91, 0x90, 0x61, 0x65, 0x73, 0x75,
+            0x52, 0x62, 0x69, 0x6f, 0x81, 0x92, 0x32, 0x30, 0x31, 0x70, 0x71, 0x67, 0x68, 0x94]
+
+def heap_stage(tier_, key):
+    def compute(d):
+        build_harness()
+        q = tier_ == "quick"
+        specs = []
+        for P in range(6):
+            specs.append({"tag": "P%d" % P, "cfg": corpus.cfg(P, 0, 0), "depth": 6 if q else 7, "log_depth": 4 if q else 5,
+                          "ops": HEAP_OPS, "seeds": [1, 2, 3], "max_nodes": 0 if q else 2500000})
+            # type-confusing guards: only the implementation is explored (Heap.tla models the safe guards)
+            specs.append({"tag": "P%d-unsafe" % P, "cfg": corpus.cfg(P, 0, 0, unsafe=True), "depth": 5 if q else 6, "log_depth": 0,
+                          "ops": HEAP_OPS + [0x56, 0x93, 0x51], "seeds": [1, 2, 3], "max_nodes": 0 if q else 2500000})
+        def bfs(ix_spec):
+            ix, sp = ix_spec
+            sf = os.path.join(d, "heap_spec_%d.json" % ix); json.dump(sp, open(sf, "w"))
+            of = os.path.join(d, "heap_%d.ndjson" % ix)
+            p = run([PFV, "heapbfs", sf, of], timeout=7200)
+            summ = json.loads(p.stdout.strip().split("\n")[-1]); summ["tag"] = sp["tag"]
+            return of, summ
+        from concurrent.futures import ThreadPoolExecutor
+        def explore(specs_, first):
+            with ThreadPoolExecutor(max_workers=max(1, CORES - 2)) as ex:
+                outs = list(ex.map(bfs, [(first + k, sp) for k, sp in enumerate(specs_)]))
+            findings, states, recs_n = [], 0, 0
+            with ThreadPoolExecutor(max_workers=max(1, (CORES - 2) // 2)) as ex:
+                vals = list(ex.map(lambda o: validate_history("heap%s" % os.path.basename(o[0]).split(".")[0], o[0], module="TraceHeap"), outs))
+            for (of, summ), (fs, st) in zip(outs, vals):
+                recs = [json.loads(l) for l in open(of) if l.strip()]
+                recs_n += len(recs); states += st
+                for f in split_findings(fs, recs):
+                    if f["record"] is not None:
+                        r = f["record"]
+                        # keep the replay small: the heaps are recomputed by replaying the path
+                        f["record"] = {k: r[k] for k in ("t", "P", "op", "key", "path", "claimed", "keys", "seeds", "cycle", "leaked") if k in r}
+                        f["record"]["bfs"] = summ["tag"]
+                    findings.append(f)
+            return findings, states, recs_n, [o[1] for o in outs]
+        findings, states, recs_n, summaries = explore(specs, 0)
+        # drift-directed: where the implementation's aliasing differs from the model, search deeper from there
+        drift = [f for f in findings if f["kind"] == "D" and f["tag"] == "heap-effect" and f["record"]]
+        extra, seen = [], set()
+        for f in sorted(drift, key=lambda f: len(f["record"]["path"])):
+            r = f["record"]
+            k = (r["P"], r["op"])
+            if k in seen and len(extra) >= 6: continue
+            seen.add(k)
+            if len(extra) >= 18: break
+            extra.append({"tag": "P%d-after-drift" % r["P"], "cfg": corpus.cfg(r["P"], 0, 0), "prefix": r["path"] + [r["op"]],
+                          "depth": 4 if q else 5, "log_depth": 0, "ops": HEAP_OPS, "seeds": [1, 2, 3], "max_nodes": 400000})
+        if extra:
+            f2, s2, n2, sm2 = explore(extra, 100)
+            findings += [f for f in f2 if f["kind"] == "V"]; states += s2; recs_n += n2; summaries += sm2
+        return {"findings": findings,
+                "coverage": {"bfs_runs": summaries, "heap_states_visited": sum(s["nodes"] for s in summaries),
+                             "forced_transitions": sum(s["trials"] for s in summaries),
+                             "transitions_validated_against_Heap_tla": sum(s["steps_logged"] for s in summaries),
+                             "states_with_cycle": sum(s["with_cycle"] for s in summaries), "states_leaking": sum(s["leaking"] for s in summaries),
+                             "drift_directed_runs": len(extra), "records": recs_n, "tlc_states": states},
+                "samples": []}
+    return cached(key, "heap_%s_%d" % (tier_, seed()), compute)
 
 # ---------------------------------------------------------------- C15 / C16 / C18: direct calls
 def calls_stage(tier_, key):
